@@ -1,333 +1,2 @@
-/- GENERATED by tools/py2lean.py (through tools/gen_lean.py) from /repo — do not edit.
-   Statement-by-statement translation of view-level methods of scoda/sequences/*.py into `do` blocks over
-   `Except PyErr`.  A sequence object is its message list; conventions: see the docstring of tools/py2lean.py.
-   Tied to the hand models by lean/SCoda/Props/ViewTie.lean (generated = hand model, for all inputs).
-
-   LINK TABLE — callees that are not translated but mapped to an existing Lean function (assumptions):
-     AbsoluteSequence.sort ↦ SCoda.sortAbs   [used]  list.sort(key=(time, channel, message_type, note)) is stable; Model/Sort.lean `sortAbs` is the stable insertion sort
-     Key.transpose_key ↦ SCoda.Gen.transposeKey   [used]  generated from music_theory.py by tools/gen_lean.py (FnTranslator); none = the Python function raised
-     mido.Message / MetaMessage ↦ a `Msg` literal (MIDO_KINDS / MIDO_KW of tools/py2lean.py)   [used]  a mido message is a MidiEv of Model/Midi.lean: channel 0 for Message, pyNone for MetaMessage, cc value in `vel`, key = index; the encoding of harness/pyimpl.py op_toMido
-   STUBS (`throw .outOfSubset`):
-     RelativeSequence.scale: call Sequence(relative_sequence=self)
-   NOT TRANSLATED:
-     AbsoluteSequence.cutoff: stores through an alias: `message_pairing[1].time = …` changes a message that is also an element of `self._messages` (object identity); value semantics cannot express it
-     RelativeSequence.scale, factor < 1: builds Sequence / Bar objects (sequences_split_bars); stubbed as `throw .outOfSubset`
-     normalise_relative, split, quantise, quantise_note_lengths, get_message_pairings: dict-of-dict state (excluded by the task)
--/
-import SCoda.Model.Sort
-import SCoda.Gen.Settings
-import SCoda.Gen.TheoryFns
-set_option linter.unusedVariables false
-namespace SCoda.Gen.View
-
-open SCoda
-
-/-- what a translated function can raise -/
-inductive PyErr
-  | sequenceException      -- `raise SequenceException(…)`
-  | indexError             -- list index out of range
-  | zeroDivisionError
-  | attributeError         -- attribute of `None`
-  | calleeRaised           -- a linked callee (LINK TABLE) raised
-  | fuel                   -- a `while` loop did not finish within its stated fuel
-  | outOfSubset            -- control reached a branch that was left untranslated (stub)
-  deriving DecidableEq, Repr, Inhabited
-
-/-- nullable int field (`pyNone` = None) read into an `Option Int` local -/
-def pyOpt (x : Int) : Option Int := if x == pyNone then none else some x
-/-- `Option Int` local stored into a nullable int field -/
-def optPy (o : Option Int) : Int := o.getD pyNone
-/-- `Message.__init__`: `if self.channel is None: self.channel = 0` -/
-def chanOfInt (c : Int) : Int := if c == pyNone then 0 else c
-def chanOfOpt (c : Option Int) : Int := c.getD 0
-/-- `msg.copy()`: a new `Message` built by `__init__` from all fields (so a `None` channel becomes 0); value semantics -/
-def msgCopy (m : Msg) : Msg := { m with ch := chanOfInt m.ch }
-
-/-- `l[i]` with Python's negative indices -/
-def pyGet {α} (l : List α) (i : Int) : Except PyErr α :=
-  let j : Int := if i < 0 then i + l.length else i
-  if j < 0 then throw .indexError else
-  match l[j.toNat]? with
-  | some x => pure x
-  | none => throw .indexError
-
-/-- `l.insert(i, x)`: negative indices count from the end, everything is clamped to `[0, len]` -/
-def pyInsert {α} (l : List α) (i : Int) (x : α) : List α :=
-  let j : Int := if i < 0 then i + l.length else i
-  let k : Nat := if j < 0 then 0 else min j.toNat l.length
-  l.take k ++ x :: l.drop k
-
-/-- `a // b` (floor division) -/
-def pyFloorDiv (a b : Int) : Except PyErr Int := if b == 0 then throw .zeroDivisionError else pure (Int.fdiv a b)
-/-- `a % b` (sign of the divisor) -/
-def pyMod (a b : Int) : Except PyErr Int := if b == 0 then throw .zeroDivisionError else pure (Int.fmod a b)
-/-- `(a / b).is_integer()` on exact rationals -/
-def pyIsIntegerDiv (a b : Int) : Except PyErr Bool := if b == 0 then throw .zeroDivisionError else pure (decide (a % b = 0))
-
-/-- `key.value` (a key is its index; AttributeError on `None`) -/
-def keyValue (k : Int) : Except PyErr Int := if k == pyNone then throw .attributeError else pure k
-
-/-- result of a function of Gen/TheoryFns.lean: `none` = raised, -1000000 = returned `None` -/
-def linkTheory (o : Option Int) : Except PyErr Int :=
-  match o with
-  | none => throw .calleeRaised
-  | some v => pure (if v == -1000000 then pyNone else v)
-
-/-- the translated functions, in dependency order: (Python name, Lean name) -/
-def translated : List (String × String) := [("RelativeSequence.pad", "pad"), ("RelativeSequence.set_channel", "setChannel"), ("RelativeSequence.concatenate", "concatenate"), ("RelativeSequence.add_message", "addMessage"), ("AbsoluteSequence._add_message_unsorted", "addMessageUnsorted"), ("AbsoluteSequence.normalise_absolute", "normaliseAbsolute"), ("binary_insort", "binaryInsort"), ("AbsoluteSequence.add_message", "absAddMessage"), ("RelativeSequence.to_absolute_sequence", "toAbsoluteSequence"), ("RelativeSequence.scale", "scale"), ("RelativeSequence.transpose", "transpose"), ("AbsoluteSequence.to_relative_sequence", "toRelativeSequence"), ("AbsoluteSequence.get_sequence_duration", "getSequenceDuration"), ("AbsoluteSequence.merge", "merge"), ("RelativeSequence.is_empty", "isEmpty"), ("AbsoluteSequence.is_channel_consistent", "isChannelConsistent"), ("AbsoluteSequence.get_sequence_channel", "getSequenceChannel"), ("MidiMessage.parse_internal_message", "parseInternalMessage"), ("RelativeSequence.to_midi_track", "toMidiTrack"), ("MidiTrack.to_mido_track", "toMidoTrack")]
-
-/-- `RelativeSequence.pad` (scoda/sequences/relative_sequence.py:171-193); returns the new `self` -/
-def pad (self_ : List Msg) (paddingLength : Int) : Except PyErr (List Msg) := do
-  let mut self_ := self_
-  let mut currentLength : Int := 0
-  let mut defaultChannel : Option Int := none
-  for msg in self_ do
-    if (defaultChannel.isNone && (msg.ch != pyNone)) then
-      defaultChannel := (pyOpt msg.ch)
-    if (msg.ty == MType.wait) then
-      currentLength := (currentLength + msg.time)
-      if (decide (currentLength ≥ paddingLength)) then
-        break
-  if (decide (currentLength < paddingLength)) then
-    self_ := self_ ++ [{ ty := MType.wait, ch := (chanOfOpt defaultChannel), time := (paddingLength - currentLength) : Msg }]
-  return self_
-
-/-- `RelativeSequence.set_channel` (scoda/sequences/relative_sequence.py:195-197); returns the new `self` -/
-def setChannel (self_ : List Msg) (channel : Int) : Except PyErr (List Msg) := do
-  let mut self_ := self_
-  -- the loop stores into fields of its loop variable `msg`: the list is rebuilt, every iteration emits the edited element
-  let mut out1_ : List Msg := []
-  for msg0_ in self_ do
-    let mut msg := msg0_
-    msg := { msg with ch := channel }
-    out1_ := out1_ ++ [msg]
-  self_ := out1_
-  return self_
-
-/-- `RelativeSequence.concatenate` (scoda/sequences/relative_sequence.py:80-89); returns the new `self` -/
-def concatenate (self_ : List Msg) (sequences : List (List Msg)) : Except PyErr (List Msg) := do
-  let mut self_ := self_
-  for seq in sequences do
-    self_ := self_ ++ seq
-  return self_
-
-/-- `RelativeSequence.add_message` (scoda/sequences/relative_sequence.py:73-78); returns the new `self` -/
-def addMessage (self_ : List Msg) (msg : Msg) (index : Option Int) : Except PyErr (List Msg) := do
-  let mut self_ := self_
-  if index.isNone then
-    self_ := self_ ++ [msg]
-  else
-    self_ := pyInsert self_ (optPy index) msg
-  return self_
-
-/-- `AbsoluteSequence._add_message_unsorted` (scoda/sequences/absolute_sequence.py:63-65); returns the new `self` -/
-def addMessageUnsorted (self_ : List Msg) (msg : Msg) : Except PyErr (List Msg) := do
-  let mut self_ := self_
-  self_ := self_ ++ [msg]
-  return self_
-
-/-- `AbsoluteSequence.normalise_absolute` (scoda/sequences/absolute_sequence.py:181-182); returns the new `self` -/
-def normaliseAbsolute (self_ : List Msg) : Except PyErr (List Msg) := do
-  let mut self_ := self_
-  self_ := SCoda.sortAbs self_
-  return self_
-
-/-- `binary_insort` (scoda/misc/util.py:37-55); returns the new `collection` -/
-def binaryInsort (collection : List Msg) (message : Msg) : Except PyErr (List Msg) := do
-  let mut collection := collection
-  let mut lo : Int := 0
-  let mut hi : Int := (collection.length : Int)
-  -- while lo < hi:  fuel = distance between the two sides at loop entry + 1
-  let fuel1_ : Nat := Int.toNat (hi - lo) + 1
-  for _ in List.replicate fuel1_ () do
-    if !(decide (lo < hi)) then
-      break
-    let mut mid : Int := ((lo + hi) / 2)
-    if (decide (message.time < (← pyGet collection mid).time)) then
-      hi := mid
-    else
-      lo := (mid + 1)
-  if (decide (lo < hi)) then
-    throw PyErr.fuel
-  collection := pyInsert collection lo message
-  return collection
-
-/-- `AbsoluteSequence.add_message` (scoda/sequences/absolute_sequence.py:59-61); returns the new `self` -/
-def absAddMessage (self_ : List Msg) (msg : Msg) : Except PyErr (List Msg) := do
-  let mut self_ := self_
-  self_ ← binaryInsort self_ msg
-  return self_
-
-/-- `RelativeSequence.to_absolute_sequence` (scoda/sequences/relative_sequence.py:38-69) -/
-def toAbsoluteSequence (self_ : List Msg) : Except PyErr (List Msg) := do
-  let mut absoluteSequence : List Msg := []
-  let mut currentPointInTime : Int := 0
-  let mut defaultChannel : Option Int := none
-  let mut capMessageExists : Bool := true
-  for msg in self_ do
-    if (defaultChannel.isNone && (msg.ch != pyNone)) then
-      defaultChannel := (pyOpt msg.ch)
-    if (msg.ty == MType.wait) then
-      currentPointInTime := (currentPointInTime + msg.time)
-      capMessageExists := false
-    else
-      let mut messageToAdd : Msg := (msgCopy msg)
-      messageToAdd := { messageToAdd with time := currentPointInTime }
-      absoluteSequence ← addMessageUnsorted absoluteSequence messageToAdd
-      capMessageExists := true
-  absoluteSequence ← normaliseAbsolute absoluteSequence
-  if (!capMessageExists) then
-    absoluteSequence ← absAddMessage absoluteSequence { ty := MType.internal, ch := (chanOfOpt defaultChannel), time := currentPointInTime : Msg }
-  return absoluteSequence
-
-/-- `RelativeSequence.scale` (scoda/sequences/relative_sequence.py:290-365); returns the new `self` -/
-def scale (self_ : List Msg) (factor : Int) : Except PyErr (List Msg) := do
-  let mut self_ := self_
-  if (decide (factor > 1)) then
-    if (!(decide (factor % 1 = 0))) then
-      throw PyErr.sequenceException
-  else
-    if (!(← pyIsIntegerDiv 1 factor)) then
-      throw PyErr.sequenceException
-  if (factor == 1) then
-    return self_
-  if (decide (factor > 1)) then
-    -- the loop stores into fields of its loop variable `msg`: the list is rebuilt, every iteration emits the edited element
-    let mut out1_ : List Msg := []
-    for msg0_ in self_ do
-      let mut msg := msg0_
-      if (msg.ty == MType.wait) then
-        msg := { msg with time := (msg.time * factor) }
-      out1_ := out1_ ++ [msg]
-    self_ := out1_
-  else
-    throw PyErr.outOfSubset   -- NOT TRANSLATED: call Sequence(relative_sequence=self)
-  return self_
-
-/-- `RelativeSequence.transpose` (scoda/sequences/relative_sequence.py:367-392); returns the new `self` and the return value -/
-def transpose (self_ : List Msg) (transposeBy : Int) : Except PyErr (List Msg × Bool) := do
-  let mut self_ := self_
-  let mut hadToShift : Bool := false
-  -- the loop stores into fields of its loop variable `msg`: the list is rebuilt, every iteration emits the edited element
-  let mut out1_ : List Msg := []
-  for msg0_ in self_ do
-    let mut msg := msg0_
-    if ((msg.ty == MType.noteOn) || (msg.ty == MType.noteOff)) then
-      msg := { msg with note := (msg.note + transposeBy) }
-      -- while msg.note < NOTE_LOWER_BOUND:  fuel = distance between the two sides at loop entry + 1
-      let fuel2_ : Nat := Int.toNat (SCoda.Gen.noteLowerBound - msg.note) + 1
-      for _ in List.replicate fuel2_ () do
-        if !(decide (msg.note < SCoda.Gen.noteLowerBound)) then
-          break
-        hadToShift := true
-        msg := { msg with note := (msg.note + 12) }
-      if (decide (msg.note < SCoda.Gen.noteLowerBound)) then
-        throw PyErr.fuel
-      -- while msg.note > NOTE_UPPER_BOUND:  fuel = distance between the two sides at loop entry + 1
-      let fuel3_ : Nat := Int.toNat (msg.note - SCoda.Gen.noteUpperBound) + 1
-      for _ in List.replicate fuel3_ () do
-        if !(decide (msg.note > SCoda.Gen.noteUpperBound)) then
-          break
-        hadToShift := true
-        msg := { msg with note := (msg.note - 12) }
-      if (decide (msg.note > SCoda.Gen.noteUpperBound)) then
-        throw PyErr.fuel
-    else
-      if (msg.ty == MType.keySignature) then
-        msg := { msg with key := (← linkTheory (SCoda.Gen.transposeKey msg.key transposeBy)) }
-    out1_ := out1_ ++ [msg]
-  self_ := out1_
-  return (self_, hadToShift)
-
-/-- `AbsoluteSequence.to_relative_sequence` (scoda/sequences/absolute_sequence.py:32-55) -/
-def toRelativeSequence (self_ : List Msg) : Except PyErr (List Msg) := do
-  let mut relativeSequence : List Msg := []
-  let mut currentPointInTime : Int := 0
-  for msg in self_ do
-    let mut time : Int := msg.time
-    if (decide (time > currentPointInTime)) then
-      relativeSequence ← addMessage relativeSequence { ty := MType.wait, ch := (chanOfInt msg.ch), time := (time - currentPointInTime) : Msg } none
-      currentPointInTime := time
-    if (msg.ty != MType.internal) then
-      let mut messageToAdd : Msg := (msgCopy msg)
-      messageToAdd := { messageToAdd with time := pyNone }
-      relativeSequence ← addMessage relativeSequence messageToAdd none
-  return relativeSequence
-
-/-- `AbsoluteSequence.get_sequence_duration` (scoda/sequences/absolute_sequence.py:531-537) -/
-def getSequenceDuration (self_ : List Msg) : Except PyErr (Int) := do
-  return (← pyGet self_ (-1)).time
-
-/-- `AbsoluteSequence.merge` (scoda/sequences/absolute_sequence.py:165-179); returns the new `self` -/
-def merge (self_ : List Msg) (sequences : List (List Msg)) : Except PyErr (List Msg) := do
-  let mut self_ := self_
-  for sequence in sequences do
-    for msg in sequence do
-      self_ ← addMessageUnsorted self_ msg
-  self_ ← normaliseAbsolute self_
-  return self_
-
-/-- `RelativeSequence.is_empty` (scoda/sequences/relative_sequence.py:396-405) -/
-def isEmpty (self_ : List Msg) : Except PyErr (Bool) := do
-  for msg in self_ do
-    if (msg.ty == MType.noteOn) then
-      return false
-  return true
-
-/-- `AbsoluteSequence.is_channel_consistent` (scoda/sequences/absolute_sequence.py:539-548) -/
-def isChannelConsistent (self_ : List Msg) : Except PyErr (Bool) := do
-  for msg in self_ do
-    if (msg.ch != (← pyGet self_ 0).ch) then
-      return false
-  return true
-
-/-- `AbsoluteSequence.get_sequence_channel` (scoda/sequences/absolute_sequence.py:525-529) -/
-def getSequenceChannel (self_ : List Msg) : Except PyErr (Int) := do
-  if (!(← isChannelConsistent self_)) then
-    throw PyErr.sequenceException
-  return (← pyGet self_ 0).ch
-
-/-- `MidiMessage.parse_internal_message` (scoda/midi/midi_message.py:59-63) -/
-def parseInternalMessage (message : Msg) : Except PyErr (Msg) := do
-  return { ty := message.ty, ch := message.ch, time := message.time, note := message.note, vel := message.vel, ctl := message.ctl, prog := message.prog, num := message.num, den := message.den, key := message.key : Msg }
-
-/-- `RelativeSequence.to_midi_track` (scoda/sequences/relative_sequence.py:458-469) -/
-def toMidiTrack (self_ : List Msg) : Except PyErr (List Msg) := do
-  let mut track : List Msg := []
-  for msg in self_ do
-    track := track ++ [(← parseInternalMessage msg)]
-  return track
-
-/-- `MidiTrack.to_mido_track` (scoda/midi/midi_track.py:25-60) -/
-def toMidoTrack (self_ : List Msg) : Except PyErr (List Msg) := do
-  let mut track : List Msg := []
-  -- not modelled (attributes name): if self.name is not None and self.name != '': track.name = self.name
-  let mut timeBuffer : Int := 0
-  for msg in self_ do
-    if (true && (msg.time != pyNone)) then
-      timeBuffer := (timeBuffer + msg.time)
-    if (msg.ty == MType.noteOn) then
-      track := track ++ [{ ty := MType.noteOn, ch := 0, time := timeBuffer, note := msg.note, vel := (if (msg.vel != pyNone) then msg.vel else 127) : Msg }]
-      timeBuffer := 0
-    else
-      if (msg.ty == MType.noteOff) then
-        track := track ++ [{ ty := MType.noteOff, ch := 0, time := timeBuffer, note := msg.note, vel := 0 : Msg }]
-        timeBuffer := 0
-      else
-        if (msg.ty == MType.wait) then
-          pure ()
-        else
-          if (msg.ty == MType.timeSignature) then
-            track := track ++ [{ ty := MType.timeSignature, ch := pyNone, time := timeBuffer, num := msg.num, den := msg.den : Msg }]
-            timeBuffer := 0
-          else
-            if (msg.ty == MType.keySignature) then
-              track := track ++ [{ ty := MType.keySignature, ch := pyNone, time := timeBuffer, key := (← keyValue msg.key) : Msg }]
-              timeBuffer := 0
-            else
-              if (msg.ty == MType.controlChange) then
-                track := track ++ [{ ty := MType.controlChange, ch := 0, time := timeBuffer, vel := msg.vel, ctl := msg.ctl : Msg }]
-                timeBuffer := 0
-  return track
-
-end SCoda.Gen.View
+/- GENERATION FAILED: Untranslatable: RelativeSequence.to_absolute_sequence: call inside a short-circuited operand -/
+#eval ("generation failed" : Nat)
